@@ -229,7 +229,8 @@ def _branch_and_price(
     root_bound = ceil(lp_obj - eps) if converged else -float("inf")
 
     def proven(obj):
-        return (obj - root_bound) / max(abs(obj), 1e-10) < gap_tol
+        # Roll counts are integers: a plan one roll above the bound is not optimal however small the relative gap
+        return obj - root_bound < 1 - eps and (obj - root_bound) / max(abs(obj), 1e-10) < gap_tol
 
     # Check if root LP is already integer
     frac_idx, frac_val = _most_fractional(x_vals, eps)
